@@ -335,6 +335,7 @@ PROFILES = [
     dict(w_alias=3, w_index_assign=3, w_listdef=3, const_list_prob=0.3, nested_lists=True, w_for=4, w_tuple=2),
     dict(w_listdef=5, list_redefine_prob=0.6, const_list_prob=0.5, w_if=4, w_if1=4, w_for=3, w_while=2, slices=True),
     dict(w_if=5, w_if1=3, w_while=2, w_for=4, w_const=3, w_copy=2, max_depth=4),
+    dict(w_if=8, return_in_arm_prob=0.45, w_const=3, w_assign=6, w_early_return=1.5, max_depth=4, max_stmts=7),
     dict(w_with=5, computed_ctx_prob=0.3, w_const=4, w_freevar=2),
 ]
 ARGS = [('R', 'R', 'L'), ('R', 'L'), ('R', 'R'), ('R', 'B', 'L'), ('L', 'L', 'R'), ('R', 'LL', 'L'), ('R', 'T', 'L'), ('R', 'LL')]
@@ -355,6 +356,8 @@ DIRECTED = [
     # class refinement ladders and phis
     'r = x1\n    if fp.isnan(x1):\n        r = 0\n    elif fp.isinf(x1):\n        r = 1\n    elif x1 == 0:\n        r = 2\n    else:\n        r = fp.logb(x1)\n    if x2 != 0:\n        r = r / x2\n    else:\n        r = x2\n    return r',
     'v = 1\n    for e in xs1:\n        if e > 0:\n            v = e\n        else:\n            v = v * e\n    w = v\n    k = 0\n    while k < 2 and v == v:\n        v = v / x2\n        with fp.INTEGER:\n            k = k + 1\n    return (v, w)',
+    # a nested if/else with one returning arm inside an outer if/else
+    'y = x1\n    if x1 > 0:\n        if x2 > 0:\n            return 7\n        else:\n            y = 2\n    else:\n        y = 1\n    z = y\n    return z + y',
     # constants under nested contexts, redefinition after a copy
     'a = 0.1 + 0.2\n    with C3:\n        b = 0.1 + 0.2\n        with MF:\n            c = b / 3\n    d = a\n    a = x1\n    if x1 > 0:\n        d = 7\n    return (a, b, c, d)',
 ]
